@@ -508,6 +508,7 @@ func (fr *Frame) enterLoop(li *loopInfo, preds []*ssa.BasicBlock, conds []string
 	if all {
 		ex.havocAll(fr.cur)
 	} else {
+		mods = allocFirst(mods)
 		objMods := ex.mods.LoopObjMods(fr, li, mods)
 		allocOnly := ex.mods.LoopAllocOnly(fr, li)
 		allocAtEntry := ex.get(fr.cur, "alloc")
@@ -688,4 +689,21 @@ func (fr *Frame) val(v ssa.Value) *Val {
 	r := &Val{T: ex.vc.fresh("undef_"+v.Name(), s), S: s, GoT: v.Type()}
 	fr.vals[v] = r
 	return r
+}
+
+// allocFirst moves the allocation counter to the front: heap-closure assumptions on havocked field
+// heaps must refer to the allocation top after the havoc.
+func allocFirst(vars []string) []string {
+	out := []string{}
+	for _, v := range vars {
+		if v == "alloc" {
+			out = append(out, v)
+		}
+	}
+	for _, v := range vars {
+		if v != "alloc" {
+			out = append(out, v)
+		}
+	}
+	return out
 }
